@@ -103,12 +103,12 @@ theorem goodAttr_of {p : Nat × List Char} (h : goodAttr p = true) : GoodAttr p.
   obtain ⟨⟨⟨⟨⟨⟨⟨h1, h2⟩, h3⟩, h4⟩, h5⟩, h6⟩, h7⟩, h8⟩ := h
   exact ⟨h1, noSpace_iff.mp h2, h3, h4, h5, h6, h7, h8⟩
 
-theorem parseLoop_attr {v : Variant} {i n} (h : GoodAttr i n) (rest : List (List Char)) (st : ParseState) :
+theorem parseLoop_attr {v : StyleVariant} {i n} (h : GoodAttr i n) (rest : List (List Char)) (st : ParseState) :
     parseLoop v (n :: rest) st = parseLoop v rest { st with attributes := st.attributes.set i (some true) } := by
   rw [parseLoop.eq_def]
   simp [h.low, h.notOn, h.notNot, h.notLink, h.idx]
 
-theorem parseLoop_not_attr {v : Variant} {i n} (h : GoodAttr i n) (rest : List (List Char)) (st : ParseState) :
+theorem parseLoop_not_attr {v : StyleVariant} {i n} (h : GoodAttr i n) (rest : List (List Char)) (st : ParseState) :
     parseLoop v (cl! "not" :: n :: rest) st =
       parseLoop v rest { st with attributes := st.attributes.set i (some false) } := by
   rw [parseLoop.eq_def]
@@ -128,7 +128,7 @@ theorem mem_keywords_of_attrIndex {w : List Char} {i : Nat} (h : attrIndex w = s
   rintro (h | h | h | h | h | h | h | h | h | h | h | h | h | h | h | h | h | h | h | h | h | h) <;> subst h <;> simp
 
 /-- A word that `Color.parse` accepts is not a key word of the style grammar. -/
-theorem color_word_facts {v : Variant} {w : List Char} {c : Color} (h : Color.parse v w = .ok c) :
+theorem color_word_facts {v : StyleVariant} {w : List Char} {c : Color} (h : Color.parse v w = .ok c) :
     w ≠ cl! "on" ∧ w ≠ cl! "not" ∧ w ≠ cl! "link" ∧ w ≠ cl! "none" ∧ attrIndex w = none := by
   have key : ∀ k ∈ styleKeywords, w ≠ k := by
     intro k hk hwk
@@ -141,27 +141,27 @@ theorem color_word_facts {v : Variant} {w : List Char} {c : Color} (h : Color.pa
   | none => rfl
   | some i => exact absurd rfl (key w (mem_keywords_of_attrIndex hi))
 
-theorem parseLoop_color {v : Variant} {w : List Char} {c : Color} (hl : lower w = w) (h : Color.parse v w = .ok c)
+theorem parseLoop_color {v : StyleVariant} {w : List Char} {c : Color} (hl : lower w = w) (h : Color.parse v w = .ok c)
     (rest : List (List Char)) (st : ParseState) :
     parseLoop v (w :: rest) st = parseLoop v rest { st with color := some w } := by
   obtain ⟨h1, h2, h3, _, h5⟩ := color_word_facts h
   rw [parseLoop.eq_def]
   simp [hl, h1, h2, h3, h5, h]
 
-theorem parseLoop_on {v : Variant} {w : List Char} {c : Color} (h : Color.parse v w = .ok c)
+theorem parseLoop_on {v : StyleVariant} {w : List Char} {c : Color} (h : Color.parse v w = .ok c)
     (rest : List (List Char)) (st : ParseState) :
     parseLoop v (cl! "on" :: w :: rest) st = parseLoop v rest { st with bgcolor := some w } := by
   rw [parseLoop.eq_def]
   have : lower (cl! "on") = cl! "on" := by decide
   simp [this, h]
 
-theorem parseLoop_link {v : Variant} (w : List Char) (rest : List (List Char)) (st : ParseState) :
+theorem parseLoop_link {v : StyleVariant} (w : List Char) (rest : List (List Char)) (st : ParseState) :
     parseLoop v (cl! "link" :: w :: rest) st = parseLoop v rest { st with link := some w } := by
   rw [parseLoop.eq_def]
   have : lower (cl! "link") = cl! "link" := by decide
   simp [this]
 
-theorem parseLoop_none_word (v : Variant) (st : ParseState) :
+theorem parseLoop_none_word (v : StyleVariant) (st : ParseState) :
     parseLoop v [cl! "none"] st = .error .styleSyntax := by
   rw [parseLoop.eq_def]
   have h1 : lower (cl! "none") = cl! "none" := by decide
@@ -189,7 +189,7 @@ theorem split_attrElem {s : Style} {i n} (h : GoodAttr i n) :
       simpa [hs, ha] using this
   · simp [hs]
 
-theorem parseLoop_attrs (v : Variant) (s : Style) (ps : List (Nat × List Char))
+theorem parseLoop_attrs (v : StyleVariant) (s : Style) (ps : List (Nat × List Char))
     (hps : ∀ p ∈ ps, GoodAttr p.1 p.2) (rest : List (List Char)) (st : ParseState) :
     parseLoop v ((ps.flatMap fun p => (attrElem s p.1 p.2).flatMap split) ++ rest) st =
       parseLoop v rest { st with attributes := ps.foldl (applyAttr s) st.attributes } := by
@@ -300,7 +300,7 @@ theorem kwVal_kwOf (s : Style) (hsub : s.attributes &&& s.setAttributes = s.attr
 
 /-! ### well-formedness unpacked -/
 
-theorem wfColor_iff {v : Variant} {c : Color} :
+theorem wfColor_iff {v : StyleVariant} {c : Color} :
     wfColor v c = true ↔ (∀ ch ∈ c.name, isSpace ch = false) ∧ Color.parse v c.name = .ok c := by
   unfold wfColor
   rw [Bool.and_eq_true, noSpace_iff]
@@ -317,7 +317,7 @@ theorem wfColor_iff {v : Variant} {c : Color} :
     rw [h2]
     simp
 
-theorem parse_empty (v : Variant) : Color.parse v [] = .error .colorParse := by
+theorem parse_empty (v : StyleVariant) : Color.parse v [] = .error .colorParse := by
   have h : ([] : List Char) ∉ Gen.ansiColorNames.map (·.1) := by decide +kernel
   unfold Color.parse Color.parseNorm
   have h1 : ansiColorNumber (strip (lower [])) = none := by
@@ -333,7 +333,7 @@ theorem parse_empty (v : Variant) : Color.parse v [] = .error .colorParse := by
   simp [h1, h2, h3]
 
 /-- A well-formed colour's name is one lower-case word that parses to the colour. -/
-theorem wfColor_facts {v : Variant} {c : Color} (h : wfColor v c = true) :
+theorem wfColor_facts {v : StyleVariant} {c : Color} (h : wfColor v c = true) :
     c.name ≠ [] ∧ (∀ ch ∈ c.name, isSpace ch = false) ∧ lower c.name = c.name ∧ Color.parse v c.name = .ok c := by
   obtain ⟨h1, h2⟩ := wfColor_iff.mp h
   refine ⟨?_, h1, ?_, h2⟩
@@ -344,14 +344,14 @@ theorem wfColor_facts {v : Variant} {c : Color} (h : wfColor v c = true) :
     rw [strip_noSpace (lower_noSpace h1)] at this
     exact this.symm
 
-structure Wf (v : Variant) (s : Style) : Prop where
+structure Wf (v : StyleVariant) (s : Style) : Prop where
   sub : s.attributes &&& s.setAttributes = s.attributes
   lt : s.setAttributes < 8192
   color : ∀ c, s.color = some c → wfColor v c = true
   bgcolor : ∀ c, s.bgcolor = some c → wfColor v c = true
   link : wfLink s.link = true
 
-theorem wf_iff {v : Variant} {s : Style} : wf v s = true ↔ Wf v s := by
+theorem wf_iff {v : StyleVariant} {s : Style} : wf v s = true ↔ Wf v s := by
   unfold wf
   simp only [Bool.and_eq_true, decide_eq_true_eq]
   constructor
@@ -386,7 +386,7 @@ theorem wfLink_cases {l : Option (List Char)} (h : wfLink l = true) :
 def finalState (s : Style) : ParseState :=
   { color := s.color.map (·.name), bgcolor := s.bgcolor.map (·.name), attributes := kwOf s, link := s.link }
 
-theorem parseLoop_colorElems {v : Variant} {s : Style} (h : Wf v s) (K : Kwargs) :
+theorem parseLoop_colorElems {v : StyleVariant} {s : Style} (h : Wf v s) (K : Kwargs) :
     parseLoop v ((colorElems s).flatMap split) { attributes := K } =
       .ok { color := s.color.map (·.name), bgcolor := s.bgcolor.map (·.name), attributes := K, link := s.link } := by
   unfold colorElems
@@ -444,13 +444,13 @@ theorem pairs13_GoodAttr : ∀ p ∈ pairs13, GoodAttr p.1 p.2 :=
   fun p hp => goodAttr_of (List.all_eq_true.mp pairs13_good p hp)
 
 /-- The loop of `parse` on the words of `render s`. -/
-theorem parseLoop_render {v : Variant} {s : Style} (h : Wf v s) :
+theorem parseLoop_render {v : StyleVariant} {s : Style} (h : Wf v s) :
     parseLoop v (split (joinSpace (strElems s))) {} = .ok (finalState s) := by
   rw [split_joinSpace, strElems_flat, List.flatMap_append, List.flatMap_assoc]
   rw [parseLoop_attrs v s pairs13 pairs13_GoodAttr]
   exact parseLoop_colorElems h _
 
-theorem init_finalState {v : Variant} {s : Style} (h : Wf v s) :
+theorem init_finalState {v : StyleVariant} {s : Style} (h : Wf v s) :
     init v ((finalState s).color.map .str) ((finalState s).bgcolor.map .str) (finalState s).attributes (finalState s).link =
       .ok { color := s.color, bgcolor := s.bgcolor, attributes := s.attributes, setAttributes := s.setAttributes,
             link := s.link, hash := s.fieldsKey,
@@ -491,7 +491,7 @@ theorem joinSpace_eq_nil {es : List (List Char)} (hne : ∀ e ∈ es, e ≠ []) 
       rw [this] at h
       simp at h
 
-theorem parse_none (v : Variant) : parse v (cl! "none") = .ok Style.null := by
+theorem parse_none (v : StyleVariant) : parse v (cl! "none") = .ok Style.null := by
   unfold parse
   have : strip (cl! "none") = cl! "none" := by decide
   simp [this]
@@ -505,7 +505,7 @@ def reparsed (s : Style) : Style :=
     styleDef := none }
 
 /-- Round trip, exact form: a non-empty computed definition parses to `reparsed s`. -/
-theorem parse_render_nonempty {v : Variant} {s : Style} (hwf : Wf v s)
+theorem parse_render_nonempty {v : StyleVariant} {s : Style} (hwf : Wf v s)
     (hd : (joinSpace (strElems s)).isEmpty = false) : parse v (joinSpace (strElems s)) = .ok (reparsed s) := by
   have hloop := parseLoop_render (v := v) hwf
   have hnone : strip (joinSpace (strElems s)) ≠ cl! "none" := by
@@ -520,7 +520,7 @@ theorem parse_render_nonempty {v : Variant} {s : Style} (hwf : Wf v s)
   rfl
 
 /-- **Round trip**: the definition `__str__` computes for a well-formed style parses back to an equal style. -/
-theorem parse_render {v : Variant} {s : Style} (hwf : Wf v s) :
+theorem parse_render {v : StyleVariant} {s : Style} (hwf : Wf v s) :
     ∃ s', parse v (render s) = .ok s' ∧ eq s' s = true := by
   unfold render
   by_cases hd : (joinSpace (strElems s)).isEmpty = true
